@@ -367,17 +367,43 @@ func genC17Op(t *rapid.T, s C17Setup, counter int, content string, atomicOnly bo
 	}
 	if o.Mech == "swap" {
 		o.Cleanup = rapid.Bool().Draw(t, "cleanup")
-		if s.Link != "..dir" && c17KnownLinkName() {
-			// listed finding k8s-link-name: a swap of a link not named
-			// "..dir" is only noticed through the removal of the old
-			// directory; keep searching behind it.
-			o.Cleanup = true
-		}
 	}
 	return o
 }
 
-var c17KnownLinkName = sync.OnceValue(func() bool { return vrt.IsKnown("C17", "k8s-link-name") })
+var (
+	c17KnownLinkName  = sync.OnceValue(func() bool { return vrt.IsKnown("C17", "k8s-link-name") })
+	c17KnownSwapTouch = sync.OnceValue(func() bool { return vrt.IsKnown("C17", "k8s-swap-then-touch") })
+)
+
+// c17AvoidKnown steers generated histories away from listed (unrepaired)
+// findings so that the search goes on behind them without paying the 10 s
+// deadline for every known lost update. It changes nothing when the findings
+// are not listed; a known lost update that still happens is matched by key.
+func c17AvoidKnown(s C17Setup, ops []*C17Op) {
+	for i, o := range ops {
+		if o.Mech != "swap" {
+			continue
+		}
+		if s.Link != "..dir" && c17KnownLinkName() {
+			// noticed only through the removal of the old directory
+			o.Cleanup = true
+		}
+		if i+1 < len(ops) && ops[i+1].Mech != "swap" && c17KnownSwapTouch() {
+			o.PauseMS = 30
+		}
+	}
+}
+
+func c17Ptrs(lists ...[]C17Op) []*C17Op {
+	var out []*C17Op
+	for _, l := range lists {
+		for i := range l {
+			out = append(out, &l[i])
+		}
+	}
+	return out
+}
 
 func genC17Ops(t *rapid.T, s C17Setup, lo, hi int, final string) []C17Op {
 	n := rapid.IntRange(lo, hi).Draw(t, "nops")
@@ -389,6 +415,7 @@ func genC17Ops(t *rapid.T, s C17Setup, lo, hi int, final string) []C17Op {
 		}
 		ops[i] = genC17Op(t, s, i+2, content, false)
 	}
+	c17AvoidKnown(s, c17Ptrs(ops))
 	return ops
 }
 
@@ -885,19 +912,39 @@ func (r *c17Run) awaitView(want c17Config, what string, ops []C17Op) *vrt.Verdic
 }
 
 // classify gives a root-cause key for a lost update when the history allows
-// one: the library re-reads on events named <dir>/..dir only, so a swap of a
-// link with another name is noticed only through the removal of the old
-// directory.
+// one (heuristic; the direct layout never matches):
+//
+//   - k8s-link-name: the library re-reads on events named <dir>/..dir only, so
+//     the swap of a link with another name (Kubernetes: ..data) is noticed
+//     only through the removal of the previously watched directory. Chosen
+//     when the link is not "..dir" and a swap is among the operations the view
+//     never caught up with.
+//   - k8s-swap-then-touch: the watch on the new timestamped directory is added
+//     after the file has been read (and not at all while the file is missing),
+//     so an in-place rewrite / rename-over / delete+recreate right after a
+//     swap can go unnoticed. Chosen when some swap is directly followed by
+//     another kind of operation.
 func (r *c17Run) classify(ops []C17Op) string {
-	if r.w.s.Layout != "k8s" || r.w.s.Link == "..dir" {
+	if r.w.s.Layout != "k8s" {
 		return ""
 	}
-	for i := len(ops) - 1; i >= 0; i-- {
-		if ops[i].Mech == "swap" {
-			if !ops[i].Cleanup {
+	seen := -1 // index of the operation whose document the view shows
+	cur := r.d.View().Counter
+	for i, o := range ops {
+		if o.Content == "new" && o.Doc.Counter == cur {
+			seen = i
+		}
+	}
+	if r.w.s.Link != "..dir" {
+		for _, o := range ops[seen+1:] {
+			if o.Mech == "swap" {
 				return "k8s-link-name"
 			}
-			return ""
+		}
+	}
+	for i := 0; i+1 < len(ops); i++ {
+		if ops[i].Mech == "swap" && ops[i+1].Mech != "swap" {
+			return "k8s-swap-then-touch"
 		}
 	}
 	return ""
@@ -1166,6 +1213,8 @@ func runC17Converge(c C17Case) vrt.Verdict {
 					}
 					if strings.HasPrefix(kind, "gone:") {
 						key = "watcher-exited"
+					} else if k := r.classify(c.Ops); k != "" {
+						key = k
 					}
 					msg := fmt.Sprintf("final content %q is invalid: want view %+v and a decoder error delivered while it is installed; view=%+v; goroutines %s: %s\n%s",
 						clip(string(r.w.cur.bytes), 80), accept, cur, kind, detail, r.obs.summary())
@@ -1239,6 +1288,11 @@ func genC17Ident(t *rapid.T) C17IdentCase {
 		c.Repl = append(c.Repl, o)
 	}
 	c.Change = genC17Op(t, s, 100, "new", true)
+	gap := c.Repl[nr-1].PauseMS
+	c17AvoidKnown(s, append(c17Ptrs(c.Prefix, c.Repl), &c.Change))
+	if gap == 100 {
+		c.Repl[nr-1].PauseMS = gap
+	}
 	return c
 }
 
